@@ -176,7 +176,42 @@ func taintScan(w *World, airs []*AirNode) (nsecrets, nblobs, noutputs int) {
 	nsig := 0
 	g1 := bls12381.NewBLS12381Suite(nil).(pairing.Suite).G1()
 	pl := g1.PointLen()
-	for _, b := range blobs {
+	// the signatures a dealer puts inside its sealed deals are made with the same key and the same
+	// nonce stream; the deal's addressee - another participant - reads them. Every deal that left
+	// a machine (result files, board) is opened with its addressee's key for this comparison only.
+	sigBlobs := append([][]byte(nil), blobs...)
+	openedSeen := map[string]bool{}
+	openDeal := func(m storage.Message) {
+		if m.Event != string(dpf.EventDKGDealConfirmationReceived) {
+			return
+		}
+		var req requests.DKGProposalDealConfirmationRequest
+		if json.Unmarshal(m.Data, &req) != nil || len(req.Deal) == 0 {
+			return
+		}
+		for _, a := range airs {
+			if a == nil || a.M == nil {
+				continue
+			}
+			if pt, err := a.M.SimDecrypt(req.Deal); err == nil {
+				blobsOf(pt, 0, &sigBlobs, openedSeen)
+				w.Stats.Probe("sealed-deal-opened-for-the-nonce-comparison")
+				return
+			}
+		}
+	}
+	for _, o := range outputs {
+		var ro types.Operation
+		if json.Unmarshal(o, &ro) == nil {
+			for _, m := range ro.ResultMsgs {
+				openDeal(m)
+			}
+		}
+	}
+	for _, m := range w.Board.Msgs {
+		openDeal(m)
+	}
+	for _, b := range sigBlobs {
 		if len(b) != pl+g1.ScalarLen() || g1.Point().UnmarshalBinary(b[:pl]) != nil {
 			continue // not a curve point followed by a scalar
 		}
